@@ -31,6 +31,17 @@ std::string mode = "free";   // free | xfirst | yfirst | alternate | random | de
 uint64_t rnd = 1;
 // per lower-bound step
 const void *entered[2] = {nullptr, nullptr};
+const void *seen[2] = {nullptr, nullptr};   // identities of the net models met in this call (first seen = 0)
+static int modelId(const void *m) {
+  for (int i = 0; i < 2; ++i) {
+    if (seen[i] == m) return i;
+    if (seen[i] == nullptr) {
+      seen[i] = m;
+      return i;
+    }
+  }
+  return 2;  // a third model: never expected
+}
 int nEntered = 0, nExited = 0;
 long long stepNo = 0;
 bool timedOut = false;
@@ -56,7 +67,7 @@ void hook(const void *model, int phase) {
     entered[slot] = model;
     ++nEntered;
     Value e = vt::ev("Solve");
-    e.set("run", run).set("phase", "enter").set("step", stepNo).set("slot", slot).set("concurrent", nEntered - nExited);
+    e.set("run", run).set("phase", "enter").set("step", stepNo).set("slot", slot).set("concurrent", nEntered - nExited).set("mid", modelId(model));
     vt::emit(e);
     cv.notify_all();
     return;
@@ -81,7 +92,7 @@ void hook(const void *model, int phase) {
   {
     const void *other = entered[0] == model ? entered[1] : entered[0];
     Value e = vt::ev("Solve");
-    e.set("run", run).set("phase", "exit").set("step", stepNo).set("model", (nEntered >= 2 && model < other) ? "x" : "y").set("order", nExited);
+    e.set("run", run).set("phase", "exit").set("step", stepNo).set("model", (nEntered >= 2 && model < other) ? "x" : "y").set("order", nExited).set("mid", modelId(model));
     vt::emit(e);
   }
   if (nExited == 2) {
@@ -116,6 +127,7 @@ static void schedScenario(int run, const Circuit &base, const ColoquinteParamete
     sched::rnd = (uint64_t)run * 31 + 7;
     sched::nEntered = sched::nExited = 0;
     sched::stepNo = 0;
+    sched::seen[0] = sched::seen[1] = nullptr;
     Value s = vt::ev("Schedule");
     s.set("run", run).set("obj", objs[m]).set("mode", modes[m]);
     vt::emit(s);
